@@ -27,8 +27,15 @@ import (
 	"time"
 )
 
-const verifRoot = "/verif"
-const repoRoot = "/repo"
+var verifRoot = envOr("VERIF_ROOT", "/verif")
+var repoRoot = envOr("VERIF_REPO", "/repo")
+
+func envOr(k, d string) string {
+	if v := os.Getenv(k); v != "" {
+		return v
+	}
+	return d
+}
 
 type Project struct {
 	Name    string   `json:"name"`
